@@ -11,6 +11,7 @@ package users
 //@ // the users trigger starts as many users as --concurrency says
 //@ func Rate$1$1
 //@   props C04 C14
+//@   dyncall doWork : any
 //@   requires options.Concurrency >= 1 && wfManager(workers)
 //@   assert before call NewWorker : [as-many-users-as-configured] arg0 == options.Concurrency
 //@
